@@ -88,7 +88,15 @@ CLAIMED["C15"] = dict(
          "Control on every invocation: the default (non-thread-safe) build under the same workload must be flagged.",
     note="One task runs at a time (no weak-memory effects); the allocator behind the seam is assumed thread-safe; sampling over workloads and schedules.")
 
-NOT_BUILT = {p: "not claimed at this commit: the simulation engine for this property is still under construction (see DESIGN.md section 11)" for p in ["C12"]}
+CLAIMED["C12"] = dict(
+    engine="cfg", level="exploration", design_ref="DESIGN.md section 3, C12",
+    technique="deterministic simulation, configuration swarm: build variants {sse2,no-sse2} x {caches,thread-safe} x {sequential,OpenMP on the simulated runtime} linked side by side with the shipped default configuration; cache sizes as per-run knobs through the generated m4ri_config.h; seeded k, cutoff, team size",
+    text="For each operand set (structured generators; dimensions at and around the thresholds the drawn cache sizes imply, multiples of 64 +-1, low-rank blocks) one operation family - product, accumulate (incl. squaring and the _mp front ends), "
+         "RREF + rank (all echelonisers, full in {0,1} completed by the top reduction), inverse, four TRSMs, trtri, solve verdict with A*X, P*L*U*Q and P*L*E reconstructed with the reference arithmetic + rank - is evaluated under 12 (quick) / 24 (thorough) "
+         "configurations (variant, L1<=L2<=L3 from {4K..64K}x{32K..2M}x{64K..64M}, k in 0..10, cutoff in {0,64,..,2048,100}, team size 1..16) and must equal the same entry point in the shipped default configuration with k = 0 and cutoff = 0, bit for bit.",
+    note="Purely differential against the same tree. Knob builds turn the cache-size constants into loads (the three '#if X == 0' fix-ups are skipped as for any non-zero size). Quick links 4 of 8 variants.")
+
+NOT_BUILT = {}
 
 
 def main():
@@ -118,6 +126,7 @@ def main():
             dict(name="hist", path="sim/eng/hist.c", serves_properties=["C10", "C11"], kind_free_text="same call in several simulated worlds (history, heap content, destination junk); allocator ledger; forked ill-dimensioned calls"),
             dict(name="omp", path="sim/eng/omp.c", serves_properties=["C16"], kind_free_text="real OpenMP build on the simulated runtime/scheduler/monitor of sim/core/sched.c"),
             dict(name="thr", path="sim/eng/thr.c", serves_properties=["C15"], kind_free_text="simulated caller threads on the thread-safe build; scheduler and HB monitor of sim/core/sched.c"),
+            dict(name="cfg", path="sim/eng/cfg.c", serves_properties=["C12"], kind_free_text="configuration/knob swarm: build variants side by side, differential against the shipped default configuration"),
             dict(name="fs", path="sim/eng/fs.c", serves_properties=["C18"], kind_free_text="simulated file system and clock under the real PNG/JCF readers and writers; fault enumeration in forked children"),
         ],
         checks=checks,
